@@ -23,7 +23,8 @@ CONSTANTS NPools,       \* number of HostConnection pools (one connection each);
           MaxId,        \* Connection.max_request_id
           InitFree,     \* initial length of Connection.request_ids
           Rounds,       \* number of heartbeat rounds explored
-          Levels        \* in_flight levels explored at the start (subset of 0..MaxId)
+          Levels,       \* in_flight levels explored at the start (subset of 0..MaxId)
+          TrafficKinds  \* kinds of traffic between rounds explored: subset of {"reqresp", "late", "event"}
 
 \* connection names in the order Cluster.get_connection_holders() yields their holders: pools, then control connection
 Order   == SubSeq(<<"p1", "p2", "p3">>, 1, NPools) \o <<"cc">>
@@ -52,14 +53,20 @@ Fresh(k, idle) ==
      free |-> IF k >= InitFree THEN <<>> ELSE [i \in 1..(InitFree - k) |-> k + i - 1],
      highest |-> IF k > InitFree THEN k - 1 ELSE InitFree - 1,
      held |-> TRUE,
+     orph |-> <<>>,          \* orphaned_request_ids: in flight, timed out on the client (handler removed), answer still owed
      writable |-> TRUE]      \* Connection._socket_writable: the reactor clears it while the write buffer is backed up
 Dead(how) == [Fresh(0, TRUE) EXCEPT !.alive = how]
 
 \* a stuck connection: idle, socket not writable -> send_msg raises ConnectionBusy (not a ConnectionException)
 Stuck(k) == [Fresh(k, TRUE) EXCEPT !.writable = FALSE]
 
+\* the first outstanding request (stream id 0) has timed out on the client: ResponseFuture._on_timeout popped its
+\* handler and parked the id in orphaned_request_ids; in_flight still counts it
+Orphaned(k) == [Fresh(k, TRUE) EXCEPT !.orph = <<0>>]
+
 InitConn == {Fresh(k, i) : k \in Levels, i \in BOOLEAN} \cup {Dead("defunct"), Dead("closed")}
             \cup {Stuck(k) : k \in Levels}
+            \cup (IF "late" \in TrafficKinds THEN {Orphaned(k) : k \in Levels \ {0}} ELSE {})
 
 Zero == [c \in Conns |-> 0]
 Act(n, c, k) == [name |-> n, c |-> c, kind |-> k]
@@ -172,15 +179,32 @@ EndRound ==
     /\ UNCHANGED <<conn, hb, hbid, todo, futures, failed, sentCnt, retCnt, pre, base, round>>
 
 \* between rounds: a request/response pair on the connection (capacity back to what it was, no longer idle)
-Traffic(c) ==
+\* between rounds: traffic received on the connection - every kind goes through Connection.process_msg, whose first
+\* statement marks the connection as not idle:
+\*   "reqresp" a request/response pair (capacity back to what it was)
+\*   "late"    the server's late answer to an orphaned stream: no handler any more; in_flight -= 1, the id is
+\*             recycled (the capacity the timed-out request held comes back: the reference level moves with it)
+\*   "event"   a pushed event (stream id -1)
+Traffic(c, k) ==
     /\ pc \in {"between", "ended"} /\ round < Rounds
-    /\ conn[c].alive = "ok" /\ conn[c].held /\ conn[c].idle /\ conn[c].inflight < MaxId /\ conn[c].writable
+    /\ conn[c].alive = "ok" /\ conn[c].held /\ conn[c].idle
     /\ LET r == conn[c] id == IF r.free # <<>> THEN Head(r.free) ELSE r.highest + 1 IN
-       conn' = [conn EXCEPT ![c].idle = FALSE,
-                            ![c].free = Append(IF r.free # <<>> THEN Tail(r.free) ELSE <<>>, id),
-                            ![c].highest = IF r.free # <<>> THEN @ ELSE @ + 1]
-    /\ pc' = "between" /\ act' = Act("Traffic", c, "")
-    /\ UNCHANGED <<hb, hbid, todo, futures, failed, sentCnt, retCnt, pre, base, round>>
+       CASE k = "reqresp" ->
+               /\ r.inflight < MaxId /\ r.writable
+               /\ conn' = [conn EXCEPT ![c].idle = FALSE,
+                                       ![c].free = Append(IF r.free # <<>> THEN Tail(r.free) ELSE <<>>, id),
+                                       ![c].highest = IF r.free # <<>> THEN @ ELSE @ + 1]
+               /\ UNCHANGED base
+         [] k = "late" ->
+               /\ r.orph # <<>>
+               /\ conn' = [conn EXCEPT ![c].idle = FALSE, ![c].inflight = @ - 1,
+                                       ![c].free = Append(@, Head(r.orph)), ![c].orph = Tail(@)]
+               /\ base' = [base EXCEPT ![c] = conn'[c]]
+         [] k = "event" ->
+               /\ conn' = [conn EXCEPT ![c].idle = FALSE]
+               /\ UNCHANGED base
+    /\ pc' = "between" /\ act' = Act("Traffic", c, k)
+    /\ UNCHANGED <<hb, hbid, todo, futures, failed, sentCnt, retCnt, pre, round>>
 
 Die(c) ==
     /\ pc \in {"between", "ended"} /\ round < Rounds /\ round > 0
@@ -190,7 +214,7 @@ Die(c) ==
     /\ UNCHANGED <<hb, hbid, todo, futures, failed, sentCnt, retCnt, pre, base, round>>
 
 AnyAnswer  == \E c \in Conns, k \in AnswerKinds : Answer(c, k)
-AnyTraffic == \E c \in Conns : Traffic(c)
+AnyTraffic == \E c \in Conns, k \in TrafficKinds : Traffic(c, k)
 AnyDie     == \E c \in Conns : Die(c)
 Next == StartRound \/ SendStep \/ EndSend \/ WaitStep \/ EndWait \/ FailStep \/ EndRound
         \/ AnyAnswer \/ AnyTraffic \/ AnyDie
@@ -203,6 +227,7 @@ TypeOK ==
           /\ conn[c].alive \in {"ok", "defunct", "closed"} /\ conn[c].idle \in BOOLEAN
           /\ conn[c].inflight \in 0..MaxId /\ conn[c].highest \in 0..MaxId
           /\ Range(conn[c].free) \subseteq 0..MaxId /\ conn[c].held \in BOOLEAN /\ conn[c].writable \in BOOLEAN
+          /\ Range(conn[c].orph) \subseteq 0..MaxId /\ Len(conn[c].orph) <= conn[c].inflight
           /\ hb[c] \in {"none", "sent", "full", "busy", "timedout", "late"} \cup AnswerKinds
     /\ pc \in {"between", "send", "wait", "fail", "ended"} /\ round \in 0..Rounds
 
@@ -246,5 +271,7 @@ Witness_Timeout        == ~(pc = "ended" /\ \E c \in Conns : hb[c] = "timedout" 
 Witness_Full           == ~(pc = "ended" /\ \E c \in Conns : hb[c] = "full" /\ retCnt[c] = 1)
 Witness_SecondRoundOk  == ~(pc = "ended" /\ round = 2 /\ \E c \in Conns : hb[c] = "ok")
 Witness_StuckAmongHealthy == ~(pc = "ended" /\ \E c, d \in Conns : hb[c] = "busy" /\ retCnt[c] = 1 /\ hb[d] = "ok" /\ Healthy(conn[d]))
+Witness_LateTraffic  == ~(act.name = "Traffic" /\ act.kind = "late")
+Witness_EventTraffic == ~(act.name = "Traffic" /\ act.kind = "event")
 Witness_LateAnswer     == ~(pc = "ended" /\ \E c \in Conns : hb[c] = "late" /\ retCnt[c] = 1)
 =============================================================================
